@@ -91,7 +91,10 @@ def worker_main(argv) -> int:
             res = {"viol": [], "counters": {}, "error": "".join(traceback.format_exception(exc))[-3000:]}
         res["case"] = case
         res["wall"] = time.time() - t0
-        results.append(_jsonable(res))
+        sigs = res.pop("sigs", [])
+        out = _jsonable(res)
+        out["sigs"] = [s if isinstance(s, str) else json.dumps(_jsonable(s), sort_keys=True) for s in sigs]
+        results.append(out)
     with open(out_file, "w") as f:
         json.dump(results, f)
     return 0
